@@ -27,6 +27,9 @@ def variant_of(o):
     return None
 
 
+_const_eval = prim.const_eval
+
+
 def _imatches_by_delegation(ctx, f, vnames):
     """`imatches` written as: a non-negative value is handed to `matches` unchanged (u64::try_from(value) succeeded), a
     negative one satisfies exactly the LessThan form. Emits the same obligations as the table form (rows and sign cases);
@@ -279,6 +282,20 @@ def run(ctx):
                 for s in bf.blocks[tgt].stmts:
                     if s.rv is not None and s.rv.k == "use" and s.rv.ops[0].kind == "const" and isinstance(s.rv.ops[0].const_value(), int) and s.lhs.is_local():
                         unit_shift[un.get(lab, lab)] = (s.lhs.local, s.rv.ops[0].const_value())
+            if unit_shift and len(unit_shift) < len([1 for lab, _ in prim.switch_edges(bf, sw[0]) if lab != "else"]):
+                # some arms compute their constant (`1 << 10`): evaluate what the arm assigns to the same local
+                dest_l = {l for l, _ in unit_shift.values()}
+                if len(dest_l) == 1:
+                    dl = next(iter(dest_l))
+                    for lab, tgt in prim.switch_edges(bf, sw[0]):
+                        if lab == "else" or un.get(lab, lab) in unit_shift:
+                            continue
+                        reg = [x for x in bf.reach_from([tgt]) if bf.dominates(tgt, x)]
+                        for bb_, kind_, obj_ in prim.local_defs(bf).get(dl, []):
+                            if bb_ in reg and kind_ == "assign":
+                                v_ = _const_eval(prim._origin_of_def(bf, (bb_, kind_, obj_), 8, {dl}))
+                                if isinstance(v_, int):
+                                    unit_shift[un.get(lab, lab)] = (dl, v_)
             # the constant is used as a shift amount (or as a divisor)
             locs = {l for l, _ in unit_shift.values()}
             how = None
@@ -290,6 +307,15 @@ def run(ctx):
                         ol = [m for l0 in ol if l0 is not None for m in prim.move_chain(bf, l0)]
                         if locs & set(ol):
                             how = s.rv.j["op"]
+                t_ = bf.blocks[b].term
+                if t_.k == "call" and t_.j.get("callee_name") == "div_ceil" and len(t_.args) == 2 and "u64" in (t_.j.get("callee_inst") or t_.callee or ""):
+                    # `byte_size.div_ceil(unit_bytes)`: the constant is the divisor, rounding up is the library's
+                    o = prim.origin_of_operand(bf, t_.args[1])
+                    ol = [y.a.get("local") for y in o.walk() if y.k == "var"] + ([t_.args[1].place.local] if t_.args[1].place is not None else [])
+                    ol = [m for l0 in ol if l0 is not None for m in prim.move_chain(bf, l0)]
+                    so_ = prim.origin_of_operand(bf, t_.args[0]).strip()
+                    if locs & set(ol) and so_.k == "arg":
+                        how = "DivCeil"
             ctx.ob("R4", "unit-constant-role", how is not None and len(locs) == 1, "the per-unit constant must be the shift amount (or divisor) applied to the byte size; found role %s" % how, fn=bf, how="provenance slice")
             for suf, want in UNITS.items():
                 us = suffix_unit.get(suf)
